@@ -46,6 +46,10 @@ def gen(seed, tier):
             yield {"prop": PROP, "op": "pos", "t": f, "c": c}
             for sp in range(0, len(f)):
                 yield {"prop": PROP, "op": "pos", "t": f, "c": c, "sp": sp}
+            # getPositionRef: the position returned must be where the element then is
+            yield {"prop": PROP, "op": "pos", "t": f, "c": c, "ref": True}
+            for sp in range(0, len(f)):
+                yield {"prop": PROP, "op": "pos", "t": f, "c": c, "sp": sp, "ref": True}
     # short exhaustive-ish histories on a tiny tree: every pair of ops over 2 points
     pts = [[0], [1], [2]]
     alphabet = []
@@ -80,14 +84,19 @@ def run(case):
         f = H.build_fiber(case["t"], 1, 0)
         before = H.snapshot(f)
         side = {}
+        meth = f.getPositionRef if case.get("ref") else f.getPosition
         try:
             if "sp" in case:
-                case["impl"] = f.getPosition(case["c"], start_pos=case["sp"])
+                case["impl"] = meth(case["c"], start_pos=case["sp"])
             else:
-                case["impl"] = f.getPosition(case["c"])
+                case["impl"] = meth(case["c"])
         except AssertionError:
             case["impl"] = "rejected"
-        side["read_leaves_tree_unchanged"] = H.snapshot(f) == before
+        if case.get("ref"):
+            case["after"] = H.snapshot(f)
+            case["dflt"] = 0
+        else:
+            side["read_leaves_tree_unchanged"] = H.snapshot(f) == before
         case["side"] = side
         return case
     d, dflt = case["d"], case["dflt"]
